@@ -201,11 +201,29 @@ func onPathMarking(c *an.Ctx, det *ssa.Function, rule string) {
 			recursive = true
 		}
 	}
-	var marks *ssa.Parameter
+	var marks ssa.Value
 	for _, prm := range det.Params {
 		if _, ok := prm.Type().Underlying().(*types.Map); ok {
 			marks = prm
 		}
+	}
+	if marks == nil {
+		// the mark set may be a field of a search object: the map the detector writes constants into,
+		// keyed by its own parameter
+		an.EachInstr(det, func(in ssa.Instruction) {
+			mu, ok := in.(*ssa.MapUpdate)
+			if !ok {
+				return
+			}
+			if _, isK := mu.Value.(*ssa.Const); !isK {
+				return
+			}
+			for _, prm := range det.Params {
+				if an.SameValue(mu.Key, prm) {
+					marks = mu.Map
+				}
+			}
+		})
 	}
 	if !recursive || marks == nil {
 		c.Note(rule, key+":shape", det.Pos(), "the detector is not a recursive function over a mark set; on-path marking is not applicable to this implementation, C05 rests on C05.1–2")
@@ -223,7 +241,7 @@ func onPathMarking(c *an.Ctx, det *ssa.Function, rule string) {
 	}
 	written := map[string]*ssa.Const{}
 	an.EachInstr(det, func(in ssa.Instruction) {
-		if mu, ok := in.(*ssa.MapUpdate); ok && an.SameValue(mu.Map, marks) {
+		if mu, ok := in.(*ssa.MapUpdate); ok && an.SameObject(mu.Map, marks) {
 			if k, ok := mu.Value.(*ssa.Const); ok {
 				written[constKey(k)] = k
 			}
@@ -237,11 +255,11 @@ func onPathMarking(c *an.Ctx, det *ssa.Function, rule string) {
 		ex.Atom = func(v ssa.Value) (an.AVal, bool) {
 			switch x := v.(type) {
 			case *ssa.Lookup:
-				if an.SameValue(x.X, marks) && !x.CommaOk {
+				if an.SameObject(x.X, marks) && !x.CommaOk {
 					return val, true
 				}
 			case *ssa.Extract:
-				if lk, ok := x.Tuple.(*ssa.Lookup); ok && an.SameValue(lk.X, marks) {
+				if lk, ok := x.Tuple.(*ssa.Lookup); ok && an.SameObject(lk.X, marks) {
 					if x.Index == 0 {
 						return val, true
 					}
@@ -291,7 +309,7 @@ func onPathMarking(c *an.Ctx, det *ssa.Function, rule string) {
 	var markSites []*ssa.MapUpdate
 	an.EachInstr(det, func(in ssa.Instruction) {
 		mu, ok := in.(*ssa.MapUpdate)
-		if !ok || !an.SameValue(mu.Map, marks) {
+		if !ok || !an.SameObject(mu.Map, marks) {
 			return
 		}
 		if k, ok := mu.Value.(*ssa.Const); ok && cycleVals[constKey(k)] {
@@ -307,14 +325,14 @@ func onPathMarking(c *an.Ctx, det *ssa.Function, rule string) {
 		isUnmark := func(in ssa.Instruction) bool {
 			switch x := in.(type) {
 			case *ssa.MapUpdate:
-				if an.SameValue(x.Map, marks) && an.SameValue(x.Key, mk.Key) {
+				if an.SameObject(x.Map, marks) && an.SameValue(x.Key, mk.Key) {
 					if k, ok := x.Value.(*ssa.Const); ok && !cycleVals[constKey(k)] {
 						return true
 					}
 				}
 			case ssa.CallInstruction:
 				if b, ok := x.Common().Value.(*ssa.Builtin); ok && b.Name() == "delete" {
-					if an.SameValue(x.Common().Args[0], marks) && an.SameValue(x.Common().Args[1], mk.Key) {
+					if an.SameObject(x.Common().Args[0], marks) && an.SameValue(x.Common().Args[1], mk.Key) {
 						return true
 					}
 				}
@@ -382,6 +400,10 @@ func onPathMarking(c *an.Ctx, det *ssa.Function, rule string) {
 			if a == name {
 				return
 			}
+		}
+		// the mark set itself, when a search object carries it (its freshness per insertion is C05.1's clause)
+		if mf := an.AccessPath(marks).LastField(); mf != "" && mf == name {
+			return
 		}
 		bad = true
 		c.Bad(rule, key+":reads("+name+")", fa.Pos(), "the detector consults graph state %q besides the adjacency map %v and its per-call mark set: a verdict remembered across insertions goes stale when edges are added", name, adj)
